@@ -57,7 +57,8 @@ func (rf rfile) withList(key string, l []json.RawMessage) rfile {
 	pb, _ := json.Marshal(p)
 	n := rf.clone()
 	n["plan"] = pb
-	n["decisions"] = json.RawMessage("[]")
+	// the recorded decisions are kept: lenient replay re-synchronises around
+	// decisions of tasks that no longer exist
 	return n
 }
 
